@@ -388,6 +388,100 @@ def check_trie(chk, idx):
               'TrieTree.find: the inner walk must start at the start index i', inner.lineno)
 
 
+def _toplevel_call(stmts, pred):
+    """index of the first top-level statement that is an expression-call satisfying pred"""
+    for i, st in enumerate(stmts):
+        if isinstance(st, ast.Expr) and isinstance(st.value, ast.Call) and pred(st.value):
+            return i
+    return None
+
+
+def _has_exit(stmts):
+    return any(isinstance(n, (ast.Continue, ast.Break, ast.Return, ast.Raise)) for st in stmts for n in ast.walk(st))
+
+
+def check_insert_all(chk, idx):
+    """every (phrase, id) pair handed to the matcher reaches the trie: batch_insert inserts every index
+    unconditionally, TrieTree.insert records the id at the node it walked to, Node.add_value appends"""
+    rid = 'C16.insert-all'
+    am = idx.cls('recognizers_text.matcher.abstract_matcher.AbstractMatcher')
+    fn = am.methods.get('batch_insert')
+    if fn is None:
+        raise AnalysisError('anchor vanished: AbstractMatcher.batch_insert')
+    chk.consulted(am.mod.path)
+    params = [a.arg for a in fn.args.args if a.arg != 'self']
+    loops = [n for n in fn.body if isinstance(n, ast.For)]
+    ok = False
+    why = 'no loop over the value/id pairs found'
+    if len(params) >= 2 and len(loops) == 1:
+        lp = loops[0]
+        vals, ids = params[0], params[1]
+
+        def is_insert(c):
+            if not (isinstance(c.func, ast.Attribute) and c.func.attr == 'insert' and len(c.args) == 2):
+                return False
+            a, b = ast.unparse(c.args[0]), ast.unparse(c.args[1])
+            if isinstance(lp.target, ast.Name):
+                i = lp.target.id
+                return a == '%s[%s]' % (vals, i) and b == '%s[%s]' % (ids, i)
+            if isinstance(lp.target, ast.Tuple) and len(lp.target.elts) == 2:
+                return [a, b] == [ast.unparse(e) for e in lp.target.elts]
+            return False
+        k = _toplevel_call(lp.body, is_insert)
+        it = ast.unparse(lp.iter)
+        full = it in ('range(0, len(%s))' % vals, 'range(len(%s))' % vals, 'range(0, len(%s))' % ids, 'range(len(%s))' % ids,
+                      'zip(%s, %s)' % (vals, ids))
+        if k is None:
+            why = 'the loop body has no unconditional self.insert(%s[i], %s[i])' % (vals, ids)
+        elif _has_exit(lp.body[:k]):
+            why = 'an iteration can leave the loop body (continue/break/return) before the pair is inserted'
+        elif not full:
+            why = 'the loop does not range over every index (%s)' % it
+        else:
+            ok = True
+            why = 'every index inserted'
+    chk.judge(ok, rid, am.mod.path, 'AbstractMatcher.batch_insert', why,
+              'AbstractMatcher.batch_insert: %s - a phrase (or one of the ids it is listed under) never reaches the trie, so '
+              'find misses it or reports incomplete canonical ids' % why, fn.lineno)
+    tt = idx.cls('recognizers_text.matcher.trie_tree.TrieTree')
+    fn = tt.methods.get('insert')
+    if fn is None:
+        raise AnalysisError('anchor vanished: TrieTree.insert')
+    params = [a.arg for a in fn.args.args if a.arg != 'self']
+    loops = [(i, n) for i, n in enumerate(fn.body) if isinstance(n, ast.For)]
+    ok = False
+    why = 'shape not recognised'
+    if len(params) == 2 and len(loops) == 1:
+        li, lp = loops[0]
+        walks = ast.unparse(lp.iter) == params[0]
+        k = _toplevel_call(fn.body[li + 1:], lambda c: isinstance(c.func, ast.Attribute) and c.func.attr == 'add_value'
+                           and len(c.args) == 1 and ast.unparse(c.args[0]) == params[1])
+        advance = any(isinstance(st, ast.Assign) and len(st.targets) == 1 and isinstance(st.targets[0], ast.Name)
+                      and st.targets[0].id == 'node' for st in lp.body) and not _has_exit(lp.body)
+        if not walks:
+            why = 'the walk does not iterate over the phrase tokens'
+        elif k is None or _has_exit(fn.body[li + 1:li + 1 + (k or 0)]):
+            why = 'the id is not recorded unconditionally at the node the walk ends in'
+        elif not advance:
+            why = 'the walk does not advance to the child node on every token'
+        else:
+            ok = True
+            why = 'walks every token, advances, records the id'
+    chk.judge(ok, rid, tt.mod.path, 'TrieTree.insert', why,
+              'TrieTree.insert: %s - an inserted phrase is not (fully) retrievable' % why, fn.lineno)
+    nd = idx.cls('recognizers_text.matcher.node.Node')
+    fn = nd.methods.get('add_value')
+    if fn is None:
+        raise AnalysisError('anchor vanished: Node.add_value')
+    p0 = [a.arg for a in fn.args.args if a.arg != 'self'][0]
+    k = _toplevel_call(fn.body, lambda c: isinstance(c.func, ast.Attribute) and c.func.attr == 'append' and len(c.args) == 1
+                       and ast.unparse(c.args[0]) == p0)
+    ok = k is not None and not _has_exit(fn.body[:k])
+    chk.judge(ok, rid, nd.mod.path, 'Node.add_value', 'appends the id unconditionally' if ok else 'no unconditional append',
+              'Node.add_value does not append every id unconditionally: a phrase listed under several ids keeps only some of '
+              'them (canonical ids incomplete)', fn.lineno)
+
+
 CONTROL = '''
 class T:
     def tokenize(self, input):
@@ -424,11 +518,13 @@ def run(chk):
     chk.rule('C16.find-map', 'StringMatcher.find token-index to character-offset mapping', floor=3)
     chk.rule('C16.init-pairs', 'dict form of init pairs each value with its own key', floor=1)
     chk.rule('C16.trie-yield', 'TrieTree.find yields (i, j - i) for the walk from i', floor=3)
+    chk.rule('C16.insert-all', 'every (phrase, id) pair reaches the trie: batch_insert, TrieTree.insert, Node.add_value', floor=3)
     for q in TOKENIZERS:
         check_tokenizer(chk, idx, q)
     check_find(chk, idx)
     check_init_pairs(chk, idx)
     check_trie(chk, idx)
+    check_insert_all(chk, idx)
     # positive control: a tokenizer that forgets `in_token = False` after a whitespace flush and mis-slices a separator
     ctl = ast.parse(CONTROL).body[0].body[0]
     tm = idx.mod('recognizers_text.matcher.simple_tokenizer')
